@@ -7,7 +7,7 @@ def groups(tier):
             Group('dispatch.inflight', entry='h_dispatch', clause='dispatch_pending_fetch sets in_flight exactly when it took a peer slot; the retry delay is computed after the attempt was counted', **dict(K, replay='backoff')),
             Group('clear.inflight', entry='h_clear', clause='clear_pending_fetch forgets a fetch only after releasing the slot it holds', **K)] + \
            [Group(f'backoff.attempts={a}', 'backoff', 'C24/backoff_h.c', entry='h_backoff',
-                  defines=[f'ATT={a}'], unwind=4, kind='unbounded', backend=['cvc5', 'z3', 'sat', 'cadical'], timeout=300, replay='backoff',
+                  defines=[f'ATT={a}'], unwind=4, kind='unbounded', backend=['cvc5', 'z3', 'sat', 'cadical'], timeout=900, replay='backoff',
                   clause=f'schedule_next_fetch_attempt with attempts = {a}: delay = initial back-off (at least 1 s) * 2^min(attempts-1, 8), capped at the maximum; '
                          'attempt limit exhausted => never retried; success => the success interval') for a in range(0, 11)]
 
